@@ -1,6 +1,6 @@
-(* C18 — Metrics counters add up. Statements only; proofs in WorldMetrics.v.
+(* C18 — Metrics counters add up. Statements only; proofs in WorldMetrics.v, WorldIssued.v.
    The counters are compared with totals over the ghost history: what they are supposed to count. *)
-From RS Require Import Base Channel Pipeline Script World Hist WorldProofs WorldInv WorldQueue WorldStop WorldMetrics.
+From RS Require Import Base Channel Pipeline Script World Hist WorldProofs WorldInv WorldQueue WorldStop WorldMetrics WorldIssued.
 
 Section C18.
 Context {State : Type}.
@@ -33,8 +33,20 @@ Proof. exact (metrics_balance cfg). Qed.
 (* C18_partial: effect_issued = effects the reducers returned is not yet a theorem (it needs the
    reducer's program counter invariant); it is decided by engines S and L (exact comparison of
    the counters with the model at every get_metrics and at the end) and by the C18 monitor. *)
+
+(* effect_issued = the effects the reducer calls returned (one CbReduce event with an effect
+   each), whenever the reducer is not between collecting the effects of an action and counting
+   them - in particular while it waits in recv and once it has left its loop (after stop) *)
+Theorem C18_effect_issued : forall reducers mws progs w pc, length progs <= 100 ->
+  reachable cfg reducers mws progs w ->
+  get_thread (w_threads w) reducer_tid = Some (TReducer pc) ->
+  (forall a s effs nd, pc <> RWrite a s effs nd /\ pc <> RBeforeEffect a s effs nd) ->
+  m_issued (w_metrics w) =
+  total (fun e => match e with ECb XReducer (CbReduce _ _ _ _ _ (Some _)) => 1%N | _ => 0%N end) (w_hist w).
+Proof. intros reducers mws progs w pc L R G NP. exact (issued_balance cfg reducers mws progs w pc L R G NP). Qed.
 End C18.
 
 Print Assumptions C18_monotone.
 Print Assumptions C18_counters.
 Print Assumptions C18_balance.
+Print Assumptions C18_effect_issued.
